@@ -122,10 +122,10 @@ theorem startTgt_finishProc {N : Pid → Prop} {w : World} (h : StartTgt N w) (z
   apply ec_modProc (startTgt_closed N)
   apply ec_wakeWaiters (startTgt_closed N) noStart_notStart.proc
   split
-  · exact ec_dropResources (startTgt_closed N) noStart_notStart.res _ _
-      (ec_cancelAwaiteds (startTgt_closed N) noStart_notStart.event noStart_notStart.res _ _ h)
-  · exact ec_cancelAwaiteds (startTgt_closed N) noStart_notStart.event noStart_notStart.res _ _
-      (ec_dropResources (startTgt_closed N) noStart_notStart.res _ _ h)
+  · exact ec_dropResources (startTgt_closed N) ⟨noStart_notStart.res, noStart_notStart.cond⟩ _ _
+      (ec_cancelAwaiteds (startTgt_closed N) noStart_notStart.event ⟨noStart_notStart.res, noStart_notStart.cond⟩ _ _ h)
+  · exact ec_cancelAwaiteds (startTgt_closed N) noStart_notStart.event ⟨noStart_notStart.res, noStart_notStart.cond⟩ _ _
+      (ec_dropResources (startTgt_closed N) ⟨noStart_notStart.res, noStart_notStart.cond⟩ _ _ h)
 
 theorem finishProc_run_mono (w : World) (z : Pid) (val : Int) (stopped : Bool) (q : Pid)
     (h : ((finishProc w z val stopped).proc q).status = .running) : (w.proc q).status = .running := by
